@@ -720,8 +720,23 @@ def merge(run: core.Run, r: dict[str, Any]) -> None:
     if r.get('harness'):
         run.count('harness_errors')
         run.inconclusive_because('harness error: ' + r['harness'][:400])
-    for w in r['w']:
+    PENDING.extend(r['w'])
+
+
+PENDING: list[dict[str, Any]] = []
+
+
+def flush(run: core.Run) -> None:
+    """Report the collected witnesses, one of every distinct kind first (only
+    the first few get a replay file)."""
+    first: dict[str, dict[str, Any]] = {}
+    for w in PENDING:
+        first.setdefault(str(w.get('kind')), w)
+    head = list(first.values())
+    ids = {id(w) for w in head}
+    for w in head + [w for w in PENDING if id(w) not in ids]:
         run.violation(w)
+    PENDING.clear()
 
 
 def main(tier: str, seed: int, replay: str | None = None) -> int:
@@ -737,6 +752,7 @@ def main(tier: str, seed: int, replay: str | None = None) -> int:
     for r in res:
         run.case(r['sig'] or 'none', nontrivial=bool(r['nt']) and r['sig'] is not None, sample=r['sample'])
         merge(run, r)
+    flush(run)
     for cnt in (
         'get_unitary_stored', 'get_unitary_explicit', 'set_params', 'get_statevector',
         'grad_vs_reference', 'grad_vs_finite_differences', 'get_grad', 'grad_stored_path',
@@ -770,6 +786,7 @@ def do_replay(run: core.Run, path: str) -> int:
     run.case(r['sig'] or 'none')
     run.case('replay-marker')
     merge(run, r)
+    flush(run)
     print('replayed case seed=%d idx=%d: %d witnesses (recorded kind: %s)' % (case['seed'], case['idx'], len(r['w']), w.get('kind')))
     for ww in r['w']:
         print('  kind', ww['kind'])
